@@ -1534,7 +1534,8 @@ func (e *CoreExtension) filterSlice(value interface{}, args ...interface{}) (int
 	}
 
 	// Default length is to the end
-	length := -1
+	length := 0
+	hasLength := false
 	if len(args) > 1 {
 		// Make sure we can convert the second argument to an integer
 		if args[1] != nil {
@@ -1542,6 +1543,7 @@ func (e *CoreExtension) filterSlice(value interface{}, args ...interface{}) (int
 			if err != nil {
 				return nil, err
 			}
+			hasLength = true
 		}
 	}
 
@@ -1568,7 +1570,9 @@ func (e *CoreExtension) filterSlice(value interface{}, args ...interface{}) (int
 
 		// Calculate end index
 		end := runeCount
-		if length >= 0 {
+		if !hasLength {
+			// No length given: slice to the end
+		} else if length >= 0 {
 			end = start + length
 			if end > runeCount {
 				end = runeCount
@@ -1600,7 +1604,9 @@ func (e *CoreExtension) filterSlice(value interface{}, args ...interface{}) (int
 
 		// Calculate end index
 		end := count
-		if length >= 0 {
+		if !hasLength {
+			// No length given: slice to the end
+		} else if length >= 0 {
 			end = start + length
 			if end > count {
 				end = count
@@ -1639,7 +1645,9 @@ func (e *CoreExtension) filterSlice(value interface{}, args ...interface{}) (int
 
 		// Calculate end index
 		end := runeCount
-		if length >= 0 {
+		if !hasLength {
+			// No length given: slice to the end
+		} else if length >= 0 {
 			end = start + length
 			if end > runeCount {
 				end = runeCount
@@ -1671,7 +1679,9 @@ func (e *CoreExtension) filterSlice(value interface{}, args ...interface{}) (int
 
 		// Calculate end index
 		end := count
-		if length >= 0 {
+		if !hasLength {
+			// No length given: slice to the end
+		} else if length >= 0 {
 			end = start + length
 			if end > count {
 				end = count
